@@ -16,13 +16,21 @@ def at_cases():
     return cases
 
 
+def pool_cases(tier):
+    """observe_on_threads / delay_threads on a real thread pool (also under C10): two items handed over while the delivery of the first
+    is still running on a pool thread - both arrive, next() returns"""
+    k = 5 if tier == "quick" else 40
+    return [("x96", "(case x96 handshake observe_on %d)" % k, {"kind": "threads", "op": "observe_on-pool"}),
+            ("x97", "(case x97 handshake delay %d)" % k, {"kind": "threads", "op": "delay-pool"})]
+
+
 def run(tier, seed, replay=None):
     rep = Report("C07", tier, seed)
     rng = Rng(seed)
     proof_stage(rep, "C07")
     if not build_stage(rep):
         return rep.finish()
-    cases = load_replay_case(replay) if replay else at_cases() + timedcheck.op_cases(OPS, tier, rng)
+    cases = load_replay_case(replay) if replay else at_cases() + timedcheck.op_cases(OPS, tier, rng) + pool_cases(tier)
     res = correspond(rep, "C07", cases, "C07 (relay_ok / passthru_ok on the timed model; remaining for the _at forms)")
     xcheck.cross_check(rep, "C07", cases, res, 40 if tier == "quick" else 400)
     if not replay:
